@@ -13,8 +13,9 @@ PROP = dict(
             models=GUD, oracle=G.gud_pde_lazarus, tie=G.tie_models),
         obl('C01.guderley.system_consistency', M,
             [T + 'f_eq_g', T + 'f_eq_g_in_w', T + 'energy_integral_logderiv', T + 'energy_is_integral',
-             T + 'energy_integral_conserved', T + 'energy_leaves'],
-            models=['GudF', 'GudG', 'GudEnergy']),
+             T + 'energy_integral_conserved', T + 'energy_leaves', T + 'chisnell_is_phase_plane_of_lazarus',
+             T + 'phase_plane_of_g'],
+            models=['GudF', 'GudG', 'GudEnergy', 'GudFe']),
         obl('C01.guderley.solver_time', M,
             [T + 'finding_guderley_solver_time', T + 'finding_guderley_solver_time_witness'],
             models=GUD, oracle=G.gud_pde_solver, finding=True),
@@ -25,7 +26,7 @@ PROP = dict(
           'the fields assembled by the traced _run -> guderley_1d -> state chain satisfy mass, momentum and energy balance '
           'in LAZARUS time, every real geometry, gamma, rho0, lambda; solve_ivp, eexp, get_shock_position are atoms.  The right-hand '
           'side f used to find B is the same system as g (also in the variable w), and the adiabatic integral ramsey.energy '
-          'checks is a first integral of it. '
+          'checks is a first integral of it; the Chisnell right-hand side fe of eexp.py is the phase-plane form of the same system. '
           'Finding: in the solver\'s own time argument t = 0.750024322 (t_L + 1) the equations are violated (velocities are '
           'returned per unit Lazarus time).',
 )
